@@ -1010,12 +1010,48 @@ func addFaults(r *core.RNG, sc *cliScenario, x *cliExec) *cliScenario {
 		}
 		return nil
 	}
+	var outside [][2]interface{} // (step, file) pairs: the file is put back after the step
 	nf := r.Range(1, 2)
 	for k := 0; k < nf; k++ {
 		si := pickStep()
 		rs := c.Steps[si].Run
 		tr := traceOf(si)
-		switch r.Pick([]int{40, 25, 35}) {
+		switch r.Pick([]int{36, 22, 30, 12}) {
+		case 3: // another program rewrites an input file while gts is reading it
+			var files []string
+			for _, a := range rs.Argv {
+				if strings.HasPrefix(a, "/u/") && !strings.HasPrefix(a, "/u/out") {
+					if _, ok := c.Files[a]; ok {
+						files = append(files, a)
+					}
+				}
+			}
+			if len(files) == 0 {
+				continue
+			}
+			file := pickS(r, files)
+			var reads []int
+			for i, o := range tr {
+				if o.Path == file && (o.Kind == "read" || o.Kind == "seek") {
+					reads = append(reads, i)
+				}
+			}
+			if len(reads) < 2 {
+				continue
+			}
+			size := len(c.Files[file].bytes())
+			ed := editSpec{Op: "cut-at-record", At: r.Intn(size + 1)}
+			switch r.Intn(4) {
+			case 0:
+				ed = editSpec{Op: "truncate", Len: r.Intn(size + 1)}
+			case 1:
+				ed = inputEdit(r, file)
+			}
+			arg, _ := json.Marshal(editStep{File: file, Edit: ed})
+			// between the first pass over the file and the end of the second
+			at := reads[1+r.Intn(len(reads)-1)]
+			rs.Faults = append(rs.Faults, simos.Fault{AtOp: at, Kind: "call", Arg: string(arg)})
+			outside = append(outside, [2]interface{}{si, file})
 		case 0: // kill somewhere, biased towards cache-file operations
 			if len(tr) == 0 {
 				continue
@@ -1086,6 +1122,17 @@ func addFaults(r *core.RNG, sc *cliScenario, x *cliExec) *cliScenario {
 	}
 	f := c.Steps[last].Run
 	again := &runStep{Argv: append([]string(nil), f.Argv...), Stdin: f.Stdin, Chunks: f.Chunks}
+	if len(outside) > 0 {
+		// whoever rewrote the files puts them back right after the step, and
+		// the identical invocation follows at the end of the history
+		for k := len(outside) - 1; k >= 0; k-- {
+			si, file := outside[k][0].(int), outside[k][1].(string)
+			rest := append([]cliStep{{Edit: &editStep{File: file, Edit: editSpec{Op: "restore"}}}}, c.Steps[si+1:]...)
+			c.Steps = append(c.Steps[:si+1:si+1], rest...)
+		}
+		c.Steps = append(c.Steps, cliStep{Run: again})
+		return c
+	}
 	if last == len(c.Steps)-1 || r.Chance(1, 2) {
 		c.Steps = append(c.Steps, cliStep{Run: again})
 	}
